@@ -286,6 +286,7 @@ func newInstanceNoConns(cfg InstCfg) (*sugardb.SugarDB, error) {
 }
 
 type SchedResult struct {
+	TotalPoints int
 	Executions int
 	MaxPoints  int
 	Outcomes   map[string]*SchedOutcome // distinct outcomes, one witness each (fewest preemptions)
@@ -357,6 +358,7 @@ func exploreScenario(sc *SchedScenario) *SchedResult {
 		if o.Points > res.MaxPoints {
 			res.MaxPoints = o.Points
 		}
+		res.TotalPoints += o.Points
 		k := o.Key()
 		if old, ok := res.Outcomes[k]; !ok || o.Preempts < old.Preempts {
 			res.Outcomes[k] = o
